@@ -741,3 +741,31 @@ mod tests {
         ));
     }
 }
+
+#[cfg(litep2p_verif)]
+impl QuicTransport {
+    /// Read-only projection of the bookkeeping maps (verification hook); `opened` = `opened_raw`.
+    pub(crate) fn verif_bookkeeping(&self) -> crate::verif::tcp::Bookkeeping {
+        fn keys<V>(map: &HashMap<ConnectionId, V>) -> Vec<usize> {
+            let mut keys: Vec<usize> = map.keys().map(|id| id.verif_as_usize()).collect();
+            keys.sort_unstable();
+            keys
+        }
+        let mut cancel_futures: Vec<(usize, bool)> = self
+            .cancel_futures
+            .iter()
+            .map(|(id, handle)| (id.verif_as_usize(), handle.is_aborted()))
+            .collect();
+        cancel_futures.sort_unstable();
+
+        crate::verif::tcp::Bookkeeping {
+            pending_dials: keys(&self.pending_dials),
+            pending_inbound: keys(&self.pending_inbound_connections),
+            opened: keys(&self.opened_raw),
+            pending_open: keys(&self.pending_open),
+            cancel_futures,
+            pending_connections: self.pending_connections.len(),
+            pending_raw_connections: self.pending_raw_connections.len(),
+        }
+    }
+}
